@@ -82,6 +82,23 @@ Theorem C17_create_user_fresh_uid_succeeds :
       snd (step H hash verify_hash (fst (run H hash verify_hash (init H c) pre)) (CreateUser pw fu salt)) = Ok (VId fu).
 Proof. exact create_user_fresh_uid_succeeds. Qed.
 
+(* exists(uid) is true, and remove_user(uid) succeeds, exactly for uids created and not removed since. *)
+Theorem C17_exists_exactly_created_users :
+  forall (H : Type) (hash : pwd -> N -> list N -> H) (verify_hash : H -> pwd -> list N -> bool),
+    (forall pw salt pep pw' pep', verify_hash (hash pw salt pep) pw' pep' = true <-> pw' = pw /\ pep' = pep) ->
+    forall (c : config) (pre : list op) (u : N), rng_ok pre ->
+      snd (step H hash verify_hash (fst (run H hash verify_hash (init H c) pre)) (Exists u)) =
+      Ok (VBool (match cred_status c (history H hash verify_hash c pre) u with Some _ => true | None => false end)).
+Proof. exact exists_verdict. Qed.
+
+Theorem C17_remove_user_exactly_created_users :
+  forall (H : Type) (hash : pwd -> N -> list N -> H) (verify_hash : H -> pwd -> list N -> bool),
+    (forall pw salt pep pw' pep', verify_hash (hash pw salt pep) pw' pep' = true <-> pw' = pw /\ pep' = pep) ->
+    forall (c : config) (pre : list op) (u : N), rng_ok pre ->
+      snd (step H hash verify_hash (fst (run H hash verify_hash (init H c) pre)) (RemoveUser u)) =
+      match cred_status c (history H hash verify_hash c pre) u with Some _ => Ok VUnit | None => Err EUserNotFound end.
+Proof. exact remove_user_verdict. Qed.
+
 (* ---------------------------------------------------------------------------------------------------
    3. Tokens. tok_status reads off the history alone whether token t currently stands for a session, of which user and
    until when: Some (owner, expiry) after it was issued to owner, with the expiry set by the issue or the last
@@ -161,6 +178,27 @@ Theorem C17_rejected_after_owner_removed_or_invalidated :
       presents o = Some (t, now) ->
       snd (step H hash verify_hash (fst (run H hash verify_hash (init H c) (pre0 ++ o1 :: mid))) o) = reject_out o.
 Proof. exact rejected_after_owner_gone. Qed.
+
+(* create_session_with_lifetime: UserNotFound for a uid that does not exist; SessionAlreadyExists while a token standing
+   for the user is unexpired at the first clock read; otherwise the RNG's draw is issued. In particular a user whose
+   session has expired (or was created with lifetime 0) is never locked out. *)
+Theorem C17_create_session_verdict :
+  forall (H : Type) (hash : pwd -> N -> list N -> H) (verify_hash : H -> pwd -> list N -> bool),
+    (forall pw salt pep pw' pep', verify_hash (hash pw salt pep) pw' pep' = true <-> pw' = pw /\ pep' = pep) ->
+    forall (c : config) (pre : list op) (u life n0 n2 tok : N),
+      rng_ok (pre ++ [CreateSessionLt u life n0 n2 tok]) ->
+      (cred_status c (history H hash verify_hash c pre) u = None ->
+       snd (step H hash verify_hash (fst (run H hash verify_hash (init H c) pre)) (CreateSessionLt u life n0 n2 tok)) =
+       Err EUserNotFound) /\
+      (cred_status c (history H hash verify_hash c pre) u <> None ->
+       (exists t x, tok_status c (history H hash verify_hash c pre) t = Some (u, x) /\ n0 < x) ->
+       snd (step H hash verify_hash (fst (run H hash verify_hash (init H c) pre)) (CreateSessionLt u life n0 n2 tok)) =
+       Err ESessionExists) /\
+      (cred_status c (history H hash verify_hash c pre) u <> None ->
+       (forall t x, tok_status c (history H hash verify_hash c pre) t = Some (u, x) -> x <= n0) ->
+       snd (step H hash verify_hash (fst (run H hash verify_hash (init H c) pre)) (CreateSessionLt u life n0 n2 tok)) =
+       Ok (VId tok)).
+Proof. exact create_session_verdict. Qed.
 
 (* ---------------------------------------------------------------------------------------------------
    4. An expired or unknown token is rejected by every operation, including refresh, and nothing changes: if t stands for
@@ -277,6 +315,9 @@ Print Assumptions C17_never_crashes.
 Print Assumptions C17_verify_only_owner.
 Print Assumptions C17_verified_password_is_the_users_own.
 Print Assumptions C17_create_user_fresh_uid_succeeds.
+Print Assumptions C17_exists_exactly_created_users.
+Print Assumptions C17_remove_user_exactly_created_users.
+Print Assumptions C17_create_session_verdict.
 Print Assumptions C17_token_owner_only_while_valid.
 Print Assumptions C17_accepted_token_was_issued_to_that_user.
 Print Assumptions C17_issued_token_valid_until_expiry.
